@@ -24,8 +24,9 @@ UseHistory == "HISTORY" \in DOMAIN IOEnv /\ IOEnv.HISTORY = "1"
 VARIABLES l,       \* index of the next event
           inst,    \* id -> [k, to, now, ch, acc]
           mh,      \* machine-predicted outs of the most recent events (for twin checks)
-          stats    \* counters for the vacuity report
-vars == <<l, inst, mh, stats>>
+          stats,   \* counters for the vacuity report
+          stable   \* the most recent call left the whole world (machines and monitors) unchanged
+vars == <<l, inst, mh, stats, stable>>
 
 Has(e, f) == f \in DOMAIN e
 
@@ -333,7 +334,17 @@ EncEv(e) ==
        /\ mh' = Push(mh, <<>>)
        /\ stats' = Bump(stats, {e.op})
 
-Init == l = 1 /\ inst = <<>> /\ mh = <<>> /\ stats = <<>>
+(* "skip n": the harness repeated the previous call n more times and every repetition returned  *)
+(* exactly what the logged one returned (long runs are summarised, not logged one by one).     *)
+(* This is only a faithful summary if repeating the call is a no-op for the specification too: *)
+(* the previous (logged) repetition must have left machines and monitors unchanged.            *)
+SkipEv(e) ==
+    /\ (IF stable THEN TRUE ELSE PrintT(<<"TOOLERR", "skip-after-a-call-that-changed-the-state", l>>))
+    /\ UNCHANGED inst
+    /\ mh' = Push(mh, <<>>)
+    /\ stats' = Bump(Bump(stats, {"skip"}), IF e.n >= 200 THEN {"skip.long"} ELSE {})
+
+Init == l = 1 /\ inst = <<>> /\ mh = <<>> /\ stats = <<>> /\ stable = FALSE
 
 Next ==
     /\ l <= N
@@ -346,6 +357,8 @@ Next ==
            [] e.op = "copy"  -> CopyEv(e)
            [] e.op = "eq"    -> EqEv(e)
            [] e.op \in {"enc14", "encpn"} -> EncEv(e)
+           [] e.op = "skip"  -> SkipEv(e)
+    /\ stable' = (IF Rec[l].op = "skip" THEN stable ELSE inst' = inst)
     /\ l' = l + 1
     /\ (IF l' = N + 1 THEN PrintT(<<"DONE", N, ToJson(stats')>>) ELSE TRUE)
 
